@@ -16,6 +16,8 @@ Require TL.Model.CoreC01.
 Require TL.Model.CoreValid.
 Require TL.Model.CoreC06.
 Require TL.Proofs.CoreC03.
+Require TL.Model.Serdes.
+Require TL.Proofs.SerdesLemmas.
 Require Import TL.Model.LeafBridge.
 Local Open Scope nat_scope.
 
@@ -31,70 +33,7 @@ Ltac crush H :=
     end).
 
 (* ================================================================== A. the scalar level *)
-Section Scalar.
-Variable rt : Runtime.
-Variable ev : tok -> res val.
-
-(* ---- whatever a scalar unmarshaller returns is of its class ---- *)
-Lemma num_ctor_shape k x y : num_ctor rt k x = Ok y -> isinstance_num k y = true.
-Proof. unfold num_ctor. intros H. destruct k; crush H; reflexivity. Qed.
-
-Lemma unm_number_shape k x y : unm_number rt k x = Ok y -> isinstance_num k y = true.
-Proof.
-  unfold unm_number. intros H.
-  destruct (decode rt x) as [d| |] eqn:Ed; cbn [bind] in H; try discriminate.
-  destruct (isinstance_num k d) eqn:Ei; [inv H; exact Ei|].
-  destruct (is_temporal x).
-  - destruct (unixtime rt x); cbn [bind] in H; try discriminate. exact (num_ctor_shape _ _ _ H).
-  - cbn [bind] in H. exact (num_ctor_shape _ _ _ H).
-Qed.
-
-Lemma unm_shape k x y : unm_of rt k x = Ok y -> shape k y = true.
-Proof.
-  destruct k; cbn [unm_of]; intros H.
-  - apply unm_number_shape in H. destruct y; try discriminate; reflexivity.
-  - apply unm_number_shape in H. destruct y; try discriminate; reflexivity.
-  - unfold unm_str in H. crush H; reflexivity.
-  - unfold unm_bytes in H. crush H; reflexivity.
-  - apply unm_number_shape in H. destruct y; try discriminate; reflexivity.
-  - apply unm_number_shape in H. destruct y; try discriminate; reflexivity.
-  - unfold unm_uuid in H. crush H; reflexivity.
-  - unfold unm_path in H. crush H; reflexivity.
-  - unfold unm_enum in H. crush H; reflexivity.
-  - unfold unm_date in H. crush H; reflexivity.
-  - unfold unm_datetime in H. crush H; reflexivity.
-  - unfold unm_time in H. crush H; reflexivity.
-  - unfold unm_timedelta in H. crush H; reflexivity.
-Qed.
-
-(* ---- the isinstance short-circuit ---- *)
-Lemma unm_pass k x : shape k x = true -> (k = LUuid -> LoadLaws rt) -> unm_of rt k x = Ok x.
-Proof.
-  intros Hs HL. destruct k, x; try discriminate Hs; try (destruct c; try discriminate Hs); try reflexivity.
-  cbn [unm_of]. unfold unm_uuid. rewrite (load_uuid_self rt (HL eq_refl)). reflexivity.
-Qed.
-
-(* ---- robust marshallers return wire data ---- *)
-Lemma mar_prim k x w : robust_kind k = true -> mar_of rt ev k x = Ok w -> prim_val w = true.
-Proof.
-  intros Hk H. destruct k; try discriminate Hk; cbn [mar_of] in H;
-    unfold mar_int, mar_float, mar_tostring, mar_iso in H; crush H; reflexivity.
-Qed.
-
-(* ---- NoneTypeUnmarshaller ---- *)
-Lemma unm_none_ok x y : unm_none rt x = Ok y -> y = VNone.
-Proof. unfold unm_none. intros H. destruct (decode rt x) as [d| |]; cbn [bind] in H; try discriminate. destruct d; inv H; reflexivity. Qed.
-
-Lemma unm_none_rejects x : x <> VNone -> (forall b, utf8_decode rt b <> Unmodelled) ->
-  exists e, unm_none rt x = Raise e.
-Proof.
-  intros Hx Ht. unfold unm_none.
-  destruct x; try (eexists; reflexivity); [congruence|].
-  destruct c; cbn [decode bind]; try (eexists; reflexivity);
-    (destruct (utf8_decode rt s) as [s'|e|] eqn:E; cbn [bind]; [eexists; reflexivity|eexists; reflexivity|destruct (Ht s E)]).
-Qed.
-
-(* ---- equality of temporals from same_dt / same_tm and the fold ---- *)
+(* ---- structural equality decides equality ---- *)
 Lemma opt_eqb_eq a b : opt_eqb a b = true -> a = b.
 Proof. destruct a, b; cbn; intros H; try discriminate; [apply Z.eqb_eq in H; subst|]; reflexivity. Qed.
 Lemma same_dt_eq a b : same_dt a b = true -> dfold a = dfold b -> a = b.
@@ -111,13 +50,212 @@ Proof.
   repeat match goal with X : (_ =? _)%Z = true |- _ => apply Z.eqb_eq in X end.
   match goal with X : opt_eqb _ _ = true |- _ => apply opt_eqb_eq in X end. subst. reflexivity.
 Qed.
-
 Lemma opt_eqb_refl a : opt_eqb a a = true.
 Proof. destruct a; cbn; [apply Z.eqb_refl|reflexivity]. Qed.
-Lemma sim_val_refl x : sim_val x x.
+Lemma same_dt_refl d : same_dt d d = true.
+Proof. unfold same_dt. rewrite !Z.eqb_refl, opt_eqb_refl. reflexivity. Qed.
+Lemma same_tm_refl t : same_tm t t = true.
+Proof. unfold same_tm. rewrite !Z.eqb_refl, opt_eqb_refl. reflexivity. Qed.
+Lemma carrier_eqb_eq a b : carrier_eqb a b = true -> a = b.
+Proof. destruct a, b; cbn; intros H; try discriminate; reflexivity. Qed.
+Lemma carrier_eqb_refl a : carrier_eqb a a = true.
+Proof. destruct a; reflexivity. Qed.
+Lemma val_eqb_refl x : val_eqb x x = true.
 Proof.
-  destruct x; try reflexivity; cbn [sim_val]; [unfold same_dt|unfold same_tm];
-    rewrite !Z.eqb_refl, opt_eqb_refl; reflexivity.
+  destruct x; cbn [val_eqb]; rewrite ?Z.eqb_refl, ?String.eqb_refl, ?carrier_eqb_refl; try reflexivity.
+  - destruct b; reflexivity.
+  - unfold dtf_eqb. rewrite same_dt_refl, Z.eqb_refl. reflexivity.
+  - unfold tmf_eqb. rewrite same_tm_refl, Z.eqb_refl. reflexivity.
+Qed.
+Lemma val_eqb_eq x y : val_eqb x y = true -> x = y.
+Proof.
+  destruct x, y; cbn [val_eqb]; intros H; try discriminate H;
+    try (apply String.eqb_eq in H; subst; reflexivity).
+  - reflexivity.
+  - apply Bool.eqb_prop in H. subst. reflexivity.
+  - apply Z.eqb_eq in H. subst. reflexivity.
+  - apply andb_true_iff in H as [H1 H2]. apply carrier_eqb_eq in H1. apply String.eqb_eq in H2. subst. reflexivity.
+  - repeat (apply andb_true_iff in H; destruct H as [H ?]).
+    repeat match goal with X : (_ =? _)%Z = true |- _ => apply Z.eqb_eq in X end. subst. reflexivity.
+  - unfold dtf_eqb in H. apply andb_true_iff in H as [H1 H2]. apply Z.eqb_eq in H2. rewrite (same_dt_eq _ _ H1 H2). reflexivity.
+  - unfold tmf_eqb in H. apply andb_true_iff in H as [H1 H2]. apply Z.eqb_eq in H2. rewrite (same_tm_eq _ _ H1 H2). reflexivity.
+  - repeat (apply andb_true_iff in H; destruct H as [H ?]).
+    repeat match goal with X : (_ =? _)%Z = true |- _ => apply Z.eqb_eq in X end. subst. reflexivity.
+Qed.
+Lemma sim_val_refl x : sim_val x x.
+Proof. destruct x; try reflexivity; cbn [sim_val]; [apply same_dt_refl|apply same_tm_refl]. Qed.
+Lemma same_class_refl x : same_class x x = true.
+Proof. destruct x; cbn [same_class]; rewrite ?String.eqb_refl, ?carrier_eqb_refl; reflexivity. Qed.
+
+Section Scalar.
+Variable rt : Runtime.
+Variable ev : tok -> res val.
+
+Lemma eqv_refl x : eqv rt x x = true.
+Proof. unfold eqv. rewrite val_eqb_refl. reflexivity. Qed.
+Lemma mem_of_member x vs : existsb (val_eqb x) vs = true -> mem rt x vs = true.
+Proof.
+  unfold mem. intros H. apply existsb_exists in H as (m & Hin & He). apply existsb_exists. exists m. split; [exact Hin|].
+  unfold eqv. rewrite He. reflexivity.
+Qed.
+
+(* ---- whatever a scalar unmarshaller returns is an instance of its class ---- *)
+Lemma view_plain_num y : (forall m, y <> VEnum m) -> view rt y = y.
+Proof. destruct y; try reflexivity. intros H. destruct (H t eq_refl). Qed.
+
+Lemma num_ctor_shape k x y : num_ctor rt k x = Ok y -> isinstance_num rt k y = true.
+Proof. unfold num_ctor. intros H. destruct k; crush H; reflexivity. Qed.
+
+Lemma unm_number_shape k x y : unm_number rt k x = Ok y -> isinstance_num rt k y = true.
+Proof.
+  unfold unm_number. intros H.
+  destruct (decode rt x) as [d| |] eqn:Ed; cbn [bind] in H; try discriminate.
+  destruct (isinstance_num rt k d) eqn:Ei; [inv H; exact Ei|].
+  destruct (is_temporal x).
+  - destruct (unixtime rt x); cbn [bind] in H; try discriminate. exact (num_ctor_shape _ _ _ H).
+  - cbn [bind] in H. exact (num_ctor_shape _ _ _ H).
+Qed.
+
+Lemma unm_str_shape x y : unm_str rt x = Ok y -> inst rt LStr y = true.
+Proof.
+  unfold unm_str. intros H. destruct (decode rt x) as [d| |]; cbn [bind] in H; try discriminate.
+  cbn [inst]. destruct (as_str rt d) eqn:E; [inv H; rewrite E; reflexivity|].
+  destruct (is_temporal x); inv H; reflexivity.
+Qed.
+
+Lemma unm_literal_shape vs x y : unm_literal rt vs x = Ok y -> mem rt y vs = true.
+Proof.
+  unfold unm_literal. intros H. destruct (mem rt x vs) eqn:E1; [inv H; exact E1|].
+  destruct (decode rt x) as [t| |]; cbn [bind] in H; try discriminate.
+  destruct (mem rt t vs) eqn:E2; [inv H; exact E2|].
+  destruct (load rt x) as [d| |]; cbn [bind] in H; try discriminate.
+  destruct (mem rt d vs) eqn:E3; [inv H; exact E3|discriminate].
+Qed.
+
+Lemma unm_shape k x y : unm_of rt k x = Ok y -> cls rt k y = true.
+Proof.
+  destruct k; cbn [unm_of]; intros H; unfold cls.
+  - apply unm_number_shape in H. destruct y; exact H.
+  - apply unm_number_shape in H. destruct y; exact H.
+  - apply unm_str_shape in H. destruct y; exact H.
+  - unfold unm_bytes in H. crush H; reflexivity.
+  - apply unm_number_shape in H. destruct y; exact H.
+  - apply unm_number_shape in H. destruct y; exact H.
+  - unfold unm_uuid in H. crush H; reflexivity.
+  - unfold unm_path in H. crush H; reflexivity.
+  - unfold unm_enum in H. destruct (match x with VEnum m => is_member rt m | _ => false end) eqn:E.
+    + inv H. destruct y; try discriminate E. reflexivity.
+    + crush H; reflexivity.
+  - unfold unm_date in H. crush H; reflexivity.
+  - unfold unm_datetime in H. crush H; reflexivity.
+  - unfold unm_time in H. crush H; reflexivity.
+  - unfold unm_timedelta in H. crush H; reflexivity.
+  - apply unm_number_shape in H. destruct y; exact H.
+  - unfold unm_pattern in H. crush H; reflexivity.
+  - unfold unm_none in H. crush H; reflexivity.
+  - apply unm_literal_shape in H. destruct y; exact H.
+Qed.
+
+(* ---- the isinstance short-circuit ---- *)
+Lemma decode_nontext x : (forall c s, x <> VText c s) -> decode rt x = Ok x.
+Proof. destruct x; try reflexivity. intros H. destruct (H c s eq_refl). Qed.
+
+Lemma isinstance_num_decode k x : isinstance_num rt k x = true -> decode rt x = Ok x.
+Proof. intros H. apply decode_nontext. intros c s ->. destruct k; discriminate H. Qed.
+
+Lemma unm_pass k x : inst rt k x = true -> (k = LUuid -> LoadLaws rt) -> unm_of rt k x = Ok x.
+Proof.
+  intros Hs HL.
+  assert (N : forall nk, isinstance_num rt nk x = true -> unm_number rt nk x = Ok x).
+  { intros nk Hn. unfold unm_number. rewrite (isinstance_num_decode nk x Hn). cbn [bind]. rewrite Hn. reflexivity. }
+  destruct k; cbn [inst] in Hs; cbn [unm_of]; try (apply N; exact Hs).
+  - unfold unm_str. destruct (as_str rt x) eqn:E; [|discriminate Hs].
+    destruct x; try (cbn [decode bind]; rewrite E; reflexivity).
+    destruct c; try (unfold as_str in E; cbn [view] in E; discriminate E). reflexivity.
+  - destruct x; try discriminate Hs. destruct c; try discriminate Hs. reflexivity.
+  - destruct x; try discriminate Hs. unfold unm_uuid. rewrite (load_uuid_self rt (HL eq_refl)). reflexivity.
+  - destruct x; try discriminate Hs. reflexivity.
+  - destruct x; try discriminate Hs. unfold unm_enum. rewrite Hs. reflexivity.
+  - destruct x; try discriminate Hs. reflexivity.
+  - destruct x; try discriminate Hs. reflexivity.
+  - destruct x; try discriminate Hs. reflexivity.
+  - destruct x; try discriminate Hs. unfold unm_timedelta. reflexivity.
+  - destruct x; try discriminate Hs. reflexivity.
+  - destruct x; try discriminate Hs. reflexivity.
+  - unfold unm_literal. rewrite Hs. reflexivity.
+Qed.
+
+(* with "E(v) is a member of E": whatever a routine returns is an instance *)
+Lemma unm_inst k x y : (forall w m, enum_of_val rt w = Ok m -> is_member rt m = true) ->
+  unm_of rt k x = Ok y -> inst rt k y = true.
+Proof.
+  intros HE H. pose proof (unm_shape k x y H) as Hc.
+  destruct k; try (unfold cls in Hc; destruct y; exact Hc).
+  cbn [unm_of] in H. unfold unm_enum in H. destruct (match x with VEnum m => is_member rt m | _ => false end) eqn:E.
+  - inv H. exact E.
+  - cbn [inst]. destruct (decode rt x >>= enum_of_val rt) as [m|e|] eqn:E1.
+    + inv H. unfold bind in E1. destruct (decode rt x); try discriminate E1. exact (HE _ _ E1).
+    + assert (G : load rt x >>= enum_of_val rt >>= (fun m => Ok (VEnum m)) = Ok y) by (destruct e; try discriminate H; exact H).
+      unfold bind in G. destruct (load rt x) as [d| |]; try discriminate G.
+      destruct (enum_of_val rt d) as [m| |] eqn:E2; try discriminate G. inv G. exact (HE _ _ E2).
+    + discriminate H.
+Qed.
+
+(* an exact instance is an instance *)
+Lemma exact_inst k x : exact rt k x = true -> inst rt k x = true.
+Proof.
+  destruct k; cbn [exact inst]; intros H.
+  17: { apply andb_true_iff in H as [_ H]. apply mem_of_member. exact H. }
+  all: destruct x; try discriminate H; try reflexivity; try exact H.
+  destruct c; try discriminate H. reflexivity.
+Qed.
+
+(* ---- robust marshallers return wire data ---- *)
+Lemma find_forallb (A : Type) (p q : A -> bool) l m : find p l = Some m -> forallb q l = true -> q m = true.
+Proof. intros Hf Hq. apply find_some in Hf as [Hin _]. rewrite forallb_forall in Hq. exact (Hq m Hin). Qed.
+
+Lemma mar_prim k x w : robust_kind k = true -> mar_of rt ev k x = Ok w -> prim_val w = true.
+Proof.
+  intros Hk H. destruct k; try discriminate Hk; cbn [mar_of] in H;
+    try (unfold mar_int, mar_float, mar_tostring, mar_iso, mar_bool, mar_none in H; crush H; reflexivity).
+  unfold mar_literal in H. destruct (find (lit_match rt x) vs) as [m|] eqn:E; [|discriminate]. inv H.
+  exact (find_forallb _ _ _ vs w E Hk).
+Qed.
+
+(* ---- NoneTypeUnmarshaller ---- *)
+Lemma unm_none_ok x y : unm_none rt x = Ok y -> y = VNone.
+Proof. unfold unm_none. intros H. destruct (decode rt x) as [d| |]; cbn [bind] in H; try discriminate. destruct d; inv H; reflexivity. Qed.
+
+Lemma unm_none_rejects x : x <> VNone -> (forall b, utf8_decode rt b <> Unmodelled) ->
+  exists e, unm_none rt x = Raise e.
+Proof.
+  intros Hx Ht. unfold unm_none.
+  destruct x; try (eexists; reflexivity); [congruence|].
+  destruct c; cbn [decode bind]; try (eexists; reflexivity);
+    (destruct (utf8_decode rt s) as [s'|e|] eqn:E; cbn [bind]; [eexists; reflexivity|eexists; reflexivity|destruct (Ht s E)]).
+Qed.
+
+(* ---- LiteralMarshaller: a declared plain value is what it answers with ---- *)
+Lemma lit_match_plain x m : lit_plain x = true -> lit_match rt x m = true -> m = x.
+Proof.
+  unfold lit_match, eqv. intros Hp H. apply andb_true_iff in H as [Hc He].
+  apply orb_true_iff in He as [He|He]; [apply val_eqb_eq; exact He|].
+  destruct x; try discriminate Hp; destruct m; try discriminate Hc; cbn [same_class] in Hc.
+  - reflexivity.
+  - unfold as_int in He. cbn [view] in He. apply Z.eqb_eq in He. destruct b, b0; try discriminate He; reflexivity.
+  - unfold as_int in He. cbn [view] in He. apply Z.eqb_eq in He. subst. reflexivity.
+  - apply carrier_eqb_eq in Hc. subst c0. unfold as_int in He. cbn [view] in He.
+    destruct c; try discriminate Hp; apply String.eqb_eq in He; subst; reflexivity.
+  - apply String.eqb_eq in Hc. subst. reflexivity.
+Qed.
+
+Lemma mar_literal_member vs x : lit_plain x = true -> existsb (val_eqb x) vs = true -> mar_literal rt vs x = Ok x.
+Proof.
+  intros Hp Hin. unfold mar_literal.
+  destruct (find (lit_match rt x) vs) as [m|] eqn:E.
+  - apply find_some in E as [_ Hm]. rewrite (lit_match_plain x m Hp Hm). reflexivity.
+  - apply existsb_exists in Hin as (m & Hi & He). apply val_eqb_eq in He. subst m.
+    pose proof (find_none _ _ E x Hi) as Hn. unfold lit_match in Hn. rewrite same_class_refl, eqv_refl in Hn. discriminate.
 Qed.
 
 Section WithLaws.
@@ -127,7 +265,7 @@ Hypothesis L : RuntimeLaws rt.
 Lemma datetime_of_parse d d' : pendulum_parse rt (canon_text rt (VDateTime d)) = Ok (PDT d') ->
   unm_datetime rt (VText CStr (canon_text rt (VDateTime d))) = Ok (VDateTime d').
 Proof.
-  intros Hp. unfold unm_datetime. cbn [is_number bind decode].
+  intros Hp. unfold unm_datetime. cbn [is_number view bind decode].
   rewrite (dateparse_plain rt _ KDateTime (PDT d')); [reflexivity|discriminate| |exact Hp|intros e; discriminate].
   apply (canon_unsigned rt L (VDateTime d)). reflexivity.
 Qed.
@@ -135,7 +273,7 @@ Qed.
 Lemma time_of_iso t t' : time_fromisoformat rt (canon_text rt (VTime t)) = Ok t' -> is_some_off t' = true ->
   unm_time rt (VText CStr (canon_text rt (VTime t))) = Ok (VTime t').
 Proof.
-  intros Hp Ho. unfold unm_time. cbn [decode bind is_number]. unfold dateparse. rewrite Hp, Ho. reflexivity.
+  intros Hp Ho. unfold unm_time. cbn [decode bind is_number view]. unfold dateparse. rewrite Hp, Ho. reflexivity.
 Qed.
 
 Lemma same_tm_off t t' : valid_tm t = true -> same_tm t t' = true -> is_some_off t' = true.
@@ -145,7 +283,7 @@ Proof.
   unfold is_some_off. destruct (toff t'); [reflexivity|]. cbn [opt_eqb] in Hs. rewrite andb_false_r in Hs. discriminate.
 Qed.
 
-(* ---- the scalar round trip: kinds whose text carries the whole value ---- *)
+(* ---- the scalar round trip: kinds whose wire form carries the whole value ---- *)
 Lemma enum_round m w : enum_value_ok rt ev m = true -> ev m = Ok w -> unm_enum rt w = Ok (VEnum m).
 Proof.
   unfold enum_value_ok. intros Hok Hw. rewrite Hw in Hok. apply andb_true_iff in Hok as [Hp Hm].
@@ -155,12 +293,28 @@ Proof.
   unfold unm_enum. destruct w; try discriminate Hp; rewrite Hd; cbn [bind]; rewrite Ee; reflexivity.
 Qed.
 
+Lemma pattern_round p : pattern_ok rt p = true -> unm_pattern rt (pattern_text rt p) = Ok (VPattern p).
+Proof.
+  unfold pattern_ok. intros H. destruct (pattern_text rt p) as [| | | |c s| | | | | | | | | | |]; try discriminate H.
+  destruct c; try discriminate H. unfold res_tok_is in H.
+  destruct (re_compile rt s) as [p'| |] eqn:E; try discriminate H. apply String.eqb_eq in H. subst p'.
+  unfold unm_pattern. cbn [decode bind as_str view]. rewrite E. reflexivity.
+Qed.
+
+Lemma round_lit vs x w : exact rt (LLit vs) x = true -> mar_of rt ev (LLit vs) x = Ok w -> unm_of rt (LLit vs) w = Ok x.
+Proof.
+  intros Hs Hm. cbn [exact] in Hs. apply andb_true_iff in Hs as [Hp Hi]. cbn [mar_of] in Hm.
+  rewrite (mar_literal_member vs x Hp Hi) in Hm. inv Hm. cbn [unm_of]. unfold unm_literal.
+  rewrite (mem_of_member _ _ Hi). reflexivity.
+Qed.
+
 Lemma round_nonfold strict k x w : in_kind rt ev strict k x = true -> k <> LDateTime -> k <> LTime ->
   mar_of rt ev k x = Ok w -> unm_of rt k w = Ok x.
 Proof.
   unfold in_kind. intros Hin Hk1 Hk2 Hm. apply andb_true_iff in Hin as [Hs Hr].
-  destruct k; try congruence; destruct x; try discriminate Hs; try (destruct c; try discriminate Hs);
-    cbn [mar_of mar_int mar_float mar_tostring mar_noop mar_enum mar_iso isoformat] in Hm.
+  destruct k; try congruence; try (exact (round_lit vs x w Hs Hm)).
+  all: destruct x; try discriminate Hs; try (destruct c; try discriminate Hs);
+    cbn [mar_of mar_int mar_float mar_bool mar_tostring mar_noop mar_enum mar_iso mar_pattern mar_none isoformat view truth bind range] in Hm, Hr.
   - inv Hm. reflexivity.
   - inv Hm. reflexivity.
   - inv Hm. reflexivity.
@@ -172,6 +326,9 @@ Proof.
   - exact (enum_round t w Hr Hm).
   - inv Hm. exact (text_date rt L CStr y m d Hr).
   - inv Hm. exact (text_timedelta rt L CStr (d, s, us) Hr).
+  - inv Hm. reflexivity.
+  - inv Hm. exact (pattern_round t Hr).
+  - inv Hm. reflexivity.
 Qed.
 
 Lemma round_dt_sim d w : valid_dt d = true -> mar_of rt ev LDateTime (VDateTime d) = Ok w ->
@@ -227,18 +384,18 @@ Qed.
 
 End WithLaws.
 
-(* the strict range is inside the lax one *)
-Lemma in_kind_strict_lax k x : in_kind rt ev true k x = true -> in_kind rt ev false k x = true.
-Proof.
-  unfold in_kind. intros H. apply andb_true_iff in H as [Hs Hr]. rewrite Hs. cbn [andb].
-  destruct x; try exact Hr; cbn [range negb orb] in *; apply andb_true_iff in Hr as [Hv _]; rewrite Hv; reflexivity.
-Qed.
-
 (* C04's guard for str-valued enums gives this bridge's guard *)
 Lemma enum_value_ok_of_text m :
   ev m = Ok (VText CStr (canon_text rt (VEnum m))) ->
   enum_of_val rt (VText CStr (canon_text rt (VEnum m))) = Ok m -> enum_value_ok rt ev m = true.
 Proof. intros H1 H2. unfold enum_value_ok. rewrite H1. cbn [plain andb]. rewrite H2. cbn [res_tok_is]. apply String.eqb_refl. Qed.
+
+(* LiteralMarshaller rejects what is no declared value (by == and class) *)
+Lemma mar_literal_rejects vs x : existsb (lit_match rt x) vs = false -> mar_literal rt vs x = Raise EValue.
+Proof.
+  intros H. unfold mar_literal. destruct (find (lit_match rt x) vs) as [m|] eqn:E; [|reflexivity].
+  apply find_some in E as [Hin Hm]. assert (existsb (lit_match rt x) vs = true) by (apply existsb_exists; eauto). congruence.
+Qed.
 
 End Scalar.
 
@@ -311,6 +468,17 @@ Qed.
 Lemma run_leaf_enc f x : run_leaf C f (encp x) = lift C (f x).
 Proof. unfold run_leaf. rewrite decp_encp. reflexivity. Qed.
 
+Lemma leaf_m_ok s k p w : kind_of s = Some k -> b_leaf_m C kind_of rts ev s p = Core.Ok w ->
+  exists x y, decp p = Some x /\ mar_of (rts s) ev k x = Ok y /\ w = encp y.
+Proof.
+  unfold b_leaf_m. intros Ek H. rewrite Ek in H.
+  assert (G : run_leaf C (mar_of (rts s) ev k) p = Core.Ok w).
+  { destruct k; try exact H. unfold run_leaf. cbn [mar_of]. destruct (decp p); [exact H|discriminate H]. }
+  exact (run_leaf_ok _ _ _ G).
+Qed.
+Lemma leaf_m_enc s k x : kind_of s = Some k -> b_leaf_m C kind_of rts ev s (encp x) = lift C (mar_of (rts s) ev k x).
+Proof. unfold b_leaf_m. intros Ek. rewrite Ek. destruct k; try apply run_leaf_enc. rewrite decp_encp. reflexivity. Qed.
+
 Lemma on_scalar_inv f p : on_scalar C f p = true -> exists x, decp p = Some x /\ f x = true.
 Proof. unfold on_scalar. destruct (decp p) as [x|] eqn:E; [|discriminate]. intros H. exists x. split; [reflexivity|assumption]. Qed.
 
@@ -335,9 +503,9 @@ Lemma bridged_leaf_round : (forall s, RuntimeLaws (rts s)) -> (forall s, FoldLaw
   forall s v w, lv true s v = true -> Core.leaf_m brt s v = Core.Ok w -> Core.leaf_u brt s w = Core.Ok v.
 Proof.
   intros HL HF s v w Hv Hm. cbn [Core.leaf_m Core.leaf_u bridged] in *. unfold LeafBridge.lv in Hv.
-  unfold b_leaf_m in Hm. unfold b_leaf_u. destruct (kind_of s) as [k|]; [|discriminate].
+  unfold b_leaf_u. destruct (kind_of s) as [k|] eqn:Ek; [|discriminate].
   destruct (on_scalar_inv _ _ Hv) as (x & Ea & Hin).
-  destruct (run_leaf_ok _ _ _ Hm) as (x' & y & Ea' & Hf & ->). rewrite Ea in Ea'. inv Ea'.
+  destruct (leaf_m_ok s k _ _ Ek Hm) as (x' & y & Ea' & Hf & ->). rewrite Ea in Ea'. inv Ea'.
   rewrite run_leaf_enc. rewrite (round_exact (rts s) ev (HL s) k x' y (HF s) Hin Hf). cbn [lift].
   rewrite (decp_inv _ _ Ea). reflexivity.
 Qed.
@@ -358,9 +526,9 @@ Lemma bridged_leaf_round_sim : (forall s, RuntimeLaws (rts s)) ->
   exists v', Core.leaf_u brt s w = Core.Ok v' /\ sim_pv C v v'.
 Proof.
   intros HL s v w Hv Hm. cbn [Core.leaf_m Core.leaf_u bridged] in *. unfold LeafBridge.lv in Hv.
-  unfold b_leaf_m in Hm. unfold b_leaf_u. destruct (kind_of s) as [k|]; [|discriminate].
+  unfold b_leaf_u. destruct (kind_of s) as [k|] eqn:Ek; [|discriminate].
   destruct (on_scalar_inv _ _ Hv) as (x & Ea & Hin).
-  destruct (run_leaf_ok _ _ _ Hm) as (x' & y & Ea' & Hf & ->). rewrite Ea in Ea'. inv Ea'.
+  destruct (leaf_m_ok s k _ _ Ek Hm) as (x' & y & Ea' & Hf & ->). rewrite Ea in Ea'. inv Ea'.
   destruct (round_sim (rts s) ev (HL s) k x' y Hin Hf) as (x'' & Hu & Hsim).
   exists (encp x''). rewrite run_leaf_enc, Hu. split; [reflexivity|].
   exists x', x''. repeat split; [exact Ea|apply decp_encp|exact Hsim].
@@ -373,29 +541,46 @@ Proof.
   intros HLd s v Hv. cbn [Core.leaf_u bridged]. unfold LeafBridge.lv in Hv. unfold b_leaf_u.
   destruct (kind_of s) as [k|]; [|discriminate].
   destruct (on_scalar_inv _ _ Hv) as (x & Ea & Hin).
-  unfold in_kind in Hin. apply andb_true_iff in Hin as [Hs _].
+  unfold in_kind in Hin. apply andb_true_iff in Hin as [Hs _]. apply exact_inst in Hs.
+  unfold run_leaf. rewrite Ea. rewrite (unm_pass (rts s) k x Hs (fun _ => HLd s)). cbn [lift].
+  rewrite (decp_inv _ _ Ea). reflexivity.
+Qed.
+
+(* ... and for every INSTANCE (True under int, a member of a str-mixin enum under str, a value == to a declared one
+   under a Literal) *)
+Lemma bridged_lv_inst_pass : (forall s, LoadLaws (rts s)) ->
+  forall s v, lv_inst C kind_of rts s v = true -> Core.leaf_u brt s v = Core.Ok v.
+Proof.
+  intros HLd s v Hv. cbn [Core.leaf_u bridged]. unfold lv_inst in Hv. unfold b_leaf_u.
+  destruct (kind_of s) as [k|]; [|discriminate].
+  destruct (on_scalar_inv _ _ Hv) as (x & Ea & Hs).
   unfold run_leaf. rewrite Ea. rewrite (unm_pass (rts s) k x Hs (fun _ => HLd s)). cbn [lift].
   rewrite (decp_inv _ _ Ea). reflexivity.
 Qed.
 
 Lemma bridged_leaf_idem : (forall s, LoadLaws (rts s)) ->
+  (forall s w m, enum_of_val (rts s) w = Ok m -> is_member (rts s) m = true) ->
   forall s x y, Core.leaf_u brt s x = Core.Ok y -> Core.leaf_u brt s y = Core.Ok y.
 Proof.
-  intros HLd s x y H. cbn [Core.leaf_u bridged] in *. unfold b_leaf_u in *.
+  intros HLd HE s x y H. cbn [Core.leaf_u bridged] in *. unfold b_leaf_u in *.
   destruct (kind_of s) as [k|]; [|discriminate].
   destruct (run_leaf_ok _ _ _ H) as (x0 & y0 & Ea & Hf & ->).
-  rewrite run_leaf_enc. rewrite (unm_pass (rts s) k y0 (unm_shape (rts s) k x0 y0 Hf) (fun _ => HLd s)). reflexivity.
+  rewrite run_leaf_enc. rewrite (unm_pass (rts s) k y0 (unm_inst (rts s) k x0 y0 (HE s) Hf) (fun _ => HLd s)). reflexivity.
 Qed.
 
 Lemma bridged_pass_laws strict : Utf8Total rt0 -> (forall e, Core.suppressed base (exn_map e) = true) ->
   (forall s, LoadLaws (rts s)) -> CoreValid.PassLaws brt (lv strict).
 Proof. intros Ht Hs HLd. split; [exact (bridged_none_laws Ht Hs)|exact (bridged_lv_pass strict HLd)]. Qed.
 Lemma bridged_idem_laws : Utf8Total rt0 -> (forall e, Core.suppressed base (exn_map e) = true) ->
-  (forall s, LoadLaws (rts s)) -> CoreValid.IdemLaws brt.
-Proof. intros Ht Hs HLd. split; [exact (bridged_none_laws Ht Hs)|exact (bridged_leaf_idem HLd)]. Qed.
+  (forall s, LoadLaws (rts s)) -> (forall s w m, enum_of_val (rts s) w = Ok m -> is_member (rts s) m = true) ->
+  CoreValid.IdemLaws brt.
+Proof. intros Ht Hs HLd HE. split; [exact (bridged_none_laws Ht Hs)|exact (bridged_leaf_idem HLd HE)]. Qed.
+Lemma bridged_pass_laws_inst : Utf8Total rt0 -> (forall e, Core.suppressed base (exn_map e) = true) ->
+  (forall s, LoadLaws (rts s)) -> CoreValid.PassLaws brt (lv_inst C kind_of rts).
+Proof. intros Ht Hs HLd. split; [exact (bridged_none_laws Ht Hs)|exact (bridged_lv_inst_pass HLd)]. Qed.
 
 (* ---- LeafLaws (C03): no interpreter law at all ---- *)
-Lemma bridged_leaf_laws : CoreC03.LeafLaws brt (leaf_class_ok C kind_of).
+Lemma bridged_leaf_laws : CoreC03.LeafLaws brt (leaf_class_ok C kind_of rts).
 Proof.
   split.
   - intros s x v H. cbn [Core.leaf_u bridged] in H. unfold b_leaf_u in H. unfold leaf_class_ok.
@@ -416,20 +601,24 @@ Proof.
 Qed.
 
 Lemma bridged_marshal_laws strict :
-  CoreC06.MarshalLaws brt (prim_atom C) (robust_leaf kind_of) (robust_leaf kind_of) (lv strict) no_literal no_member.
+  CoreC06.MarshalLaws brt (prim_atom C) (robust_leaf kind_of) (robust_leaf kind_of) (lv strict)
+    (lit_leaf kind_of) (lit_member C kind_of rts).
 Proof.
   assert (R : forall s x w, robust_leaf kind_of s = true -> Core.leaf_m brt s x = Core.Ok w ->
                             CoreC06.is_wire (prim_atom C) w = true).
-  { intros s x w Hr H. cbn [Core.leaf_m bridged] in H. unfold b_leaf_m in H. unfold robust_leaf in Hr.
-    destruct (kind_of s) as [k|]; [|discriminate].
-    destruct (run_leaf_ok _ _ _ H) as (x0 & y0 & Ea & Hf & ->).
+  { intros s x w Hr H. cbn [Core.leaf_m bridged] in H. unfold robust_leaf in Hr.
+    destruct (kind_of s) as [k|] eqn:Ek; [|discriminate].
+    destruct (leaf_m_ok s k _ _ Ek H) as (x0 & y0 & Ea & Hf & ->).
     apply is_wire_encp. exact (mar_prim (rts s) ev k x0 y0 Hr Hf). }
   split.
   - exists (enc C VNone). split; [reflexivity|]. unfold prim_atom, on_scalar. change (Core.PAtom (enc C VNone)) with (encp VNone).
     rewrite decp_encp. reflexivity.
   - exact R.
   - intros s x w Hr _ H. exact (R s x w Hr H).
-  - intros s x H. discriminate H.
+  - intros s x Hl Hm. cbn [Core.leaf_m bridged]. unfold lit_leaf in Hl. unfold lit_member in Hm. unfold b_leaf_m.
+    destruct (kind_of s) as [k|]; [|discriminate Hl]. destruct k; try discriminate Hl.
+    unfold on_scalar in Hm. destruct (decp x) as [x0|]; [|reflexivity].
+    rewrite (mar_literal_rejects (rts s) vs x0 Hm). reflexivity.
 Qed.
 
 (* ---- marshalling a leaf is injective (C01_keys_of_leaf_law), when == between distinct atoms is never claimed ---- *)
@@ -448,9 +637,9 @@ Proof.
   intros HL HF Hae s v1 v2 w1 w2 H1 H2 M1 M2 Heq.
   pose proof (bridged_leaf_round HL HF s v1 w1 H1 M1) as U1.
   pose proof (bridged_leaf_round HL HF s v2 w2 H2 M2) as U2.
-  cbn [Core.leaf_m bridged] in M1, M2. unfold b_leaf_m in M1, M2. destruct (kind_of s) as [k|]; [|discriminate].
-  destruct (run_leaf_ok _ _ _ M1) as (x1 & y1 & D1 & _ & ->).
-  destruct (run_leaf_ok _ _ _ M2) as (x2 & y2 & D2 & _ & ->).
+  cbn [Core.leaf_m bridged] in M1, M2. unfold LeafBridge.lv in H1. destruct (kind_of s) as [k|] eqn:Ek; [|discriminate H1].
+  destruct (leaf_m_ok s k _ _ Ek M1) as (x1 & y1 & D1 & _ & ->).
+  destruct (leaf_m_ok s k _ _ Ek M2) as (x2 & y2 & D2 & _ & ->).
   rewrite (pyeq_encp y1 y2 Hae Heq) in U1. rewrite U1 in U2. inv U2.
   rewrite (decp_inv _ _ D2). destruct (encp_shape x2) as [[a E]|[f E]]; rewrite E;
     cbn [Core.pv_pyeq Core.pv_eqb]; rewrite Nat.eqb_refl; reflexivity.
@@ -488,6 +677,7 @@ Proof. destruct c; reflexivity. Qed.
 Lemma val_of_tokens_of v : val_of_tokens (tokens_of v) = Some v.
 Proof.
   destruct v; cbn [tokens_of val_of_tokens]; rewrite ?ptag_tstr, ?pcar_tcar; try reflexivity.
+  - destruct b; reflexivity.
   - rewrite pz_end. reflexivity.
   - rewrite !pz_app. cbn [obind]. rewrite !pz_app. cbn [obind]. rewrite pz_end. reflexivity.
   - destruct d as [y mo dd0 h mi s us o fo]. cbn [dy dmo dd dh dmi ds dus doff dfold].
@@ -559,13 +749,14 @@ Proof.
 Qed.
 
 (* the laws of RuntimeLaws do not mention the enum class at hand *)
-Lemma with_enum_laws rt f : RuntimeLaws rt -> RuntimeLaws (with_enum rt f).
+Lemma with_enum_laws rt f : RuntimeLaws rt -> (forall w m, f w = Ok m -> is_member rt m = true) ->
+  RuntimeLaws (with_enum rt f).
 Proof.
-  intros L. split.
+  intros L HF. split.
   - exact (utf8_rt rt L). - exact (int_text_rt rt L). - exact (float_text_rt rt L). - exact (dec_text_rt rt L).
   - exact (frac_text_rt rt L). - exact (uuid_text_rt rt L). - exact (path_text_rt rt L).
   - exact (uuid_text_not_loadable rt L). - exact (parse_date_rt rt L). - exact (parse_dt_rt rt L).
-  - exact (time_iso_rt rt L). - exact (canon_unsigned rt L). - exact (parse_dur_rt rt L).
+  - exact (time_iso_rt rt L). - exact (canon_unsigned rt L). - exact (parse_dur_rt rt L). - exact HF.
 Qed.
 
 (* ================================================================== E. witnesses and the example instance *)
@@ -581,13 +772,13 @@ Proof. vm_compute. repeat split; discriminate. Qed.
 
 Lemma enum_bytes_round_fails :
   RuntimeLaws (with_enum toy_rt bytes_enum_of_val) /\
-  shape LEnum (VEnum "E.c") = true /\
+  exact (with_enum toy_rt bytes_enum_of_val) LEnum (VEnum "E.c") = true /\
   bytes_enum_value "E.c" = Ok (VText CBytes "yy") /\
   enum_of_val (with_enum toy_rt bytes_enum_of_val) (VText CBytes "yy") = Ok "E.c"%string /\
   enum_value_ok (with_enum toy_rt bytes_enum_of_val) bytes_enum_value "E.c" = false /\
   mar_of (with_enum toy_rt bytes_enum_of_val) bytes_enum_value LEnum (VEnum "E.c") = Ok (VText CBytes "yy") /\
   unm_of (with_enum toy_rt bytes_enum_of_val) LEnum (VText CBytes "yy") = Raise EValue.
-Proof. split; [exact (with_enum_laws toy_rt _ toy_laws)|]. vm_compute. repeat split. Qed.
+Proof. split; [exact (with_enum_laws toy_rt _ toy_laws (fun _ _ _ => eq_refl))|]. vm_compute. repeat split. Qed.
 
 Lemma zero_duration_facts :
   (forall rt, RuntimeLaws rt ->
@@ -600,6 +791,32 @@ Proof.
   split; [|vm_compute; repeat split].
   intros rt L. split; [reflexivity|]. exact (text_timedelta rt L CStr (0, 0, 0)%Z eq_refl).
 Qed.
+
+(* a compiled pattern is written without its flags; a bytes pattern is written as bytes and read back as a str pattern *)
+Lemma pattern_round_fails :
+  exact toy_rt LPattern (VPattern "a+/I") = true /\ pattern_ok toy_rt "a+/I" = false /\
+  mar_of toy_rt ex_ev LPattern (VPattern "a+/I") = Ok (VText CStr "a+") /\
+  unm_of toy_rt LPattern (VText CStr "a+") = Ok (VPattern "a+") /\
+  pattern_ok toy_rt "b:a" = false /\ mar_of toy_rt ex_ev LPattern (VPattern "b:a") = Ok (VText CBytes "a") /\
+  unm_of toy_rt LPattern (VText CBytes "a") = Ok (VPattern "a") /\
+  pattern_ok toy_rt "a+" = true /\ unm_of toy_rt LPattern (VText CStr "(") = Raise EOther.
+Proof. vm_compute. repeat split. Qed.
+
+(* instances that are not of the exact class pass through but do not round-trip: True under int, a member of a
+   str-mixin enum under str, a value == to a declared one under a Literal; bool('false') is True *)
+Lemma instance_round_fails :
+  inst toy_rt LInt (VBool true) = true /\ exact toy_rt LInt (VBool true) = false /\
+  unm_of toy_rt LInt (VBool true) = Ok (VBool true) /\ mar_of toy_rt ex_ev LInt (VBool true) = Ok (VInt 1) /\
+  unm_of toy_rt LInt (VInt 1) = Ok (VInt 1) /\
+  inst toy_rt LStr (VEnum "SM.a") = true /\ unm_of toy_rt LStr (VEnum "SM.a") = Ok (VEnum "SM.a") /\
+  mar_of toy_rt ex_ev LStr (VEnum "SM.a") = Ok (VText CStr "SM.a") /\
+  inst toy_rt (LLit ex_lit) (VBool true) = true /\ exact toy_rt (LLit ex_lit) (VBool true) = false /\
+  unm_of toy_rt (LLit ex_lit) (VBool true) = Ok (VBool true) /\
+  mar_of toy_rt ex_ev (LLit ex_lit) (VBool true) = Raise EValue /\
+  unm_of toy_rt (LLit ex_lit) (VText CBytes "a") = Ok (VText CStr "a") /\
+  unm_of toy_rt LBool (VText CStr "false") = Ok (VBool true) /\ unm_of toy_rt LBool (VText CBytes "") = Ok (VBool false) /\
+  unm_of toy_rt LInt (VEnum "IE.one") = Ok (VEnum "IE.one") /\ mar_of toy_rt ex_ev LInt (VEnum "IE.one") = Ok (VInt 1).
+Proof. vm_compute. repeat split. Qed.
 
 (* ---- bridged level ---- *)
 Section Instance.
@@ -632,7 +849,7 @@ Lemma ex_mar : Core.mar xrt no_env 4 ex_T (ex_pv xC Core.KTuple ex_vals) = Core.
 Proof.
   unfold ex_T, ex_pv, ex_vals, ex_wire.
   cbn [Core.mar Core.itervalues Core.bind Core.mapM Core.zip_trunc map fst snd Core.leaf_m bridged].
-  unfold b_leaf_m. cbn [ex_kinds]. rewrite !(run_leaf_enc xC CLx). vm_compute. reflexivity.
+  repeat (erewrite (leaf_m_enc xC ex_kinds (fun _ => toy_rt) ex_ev CLx) by reflexivity). vm_compute. reflexivity.
 Qed.
 
 Lemma ex_unm : Core.unm xrt no_env 4 ex_T (ex_pv xC Core.KList ex_wire) = Core.Ok (ex_pv xC Core.KTuple ex_vals).
@@ -657,7 +874,7 @@ Lemma ex_fold_refutes :
   encp xC (VDateTime ex_dt) <> encp xC (VDateTime ex_dt_fold1).
 Proof.
   split; [rewrite ex_lv_enc; vm_compute; reflexivity|].
-  split; [cbn [Core.leaf_m bridged]; unfold b_leaf_m; cbn [ex_kinds]; rewrite (run_leaf_enc xC CLx); vm_compute; reflexivity|].
+  split; [cbn [Core.leaf_m bridged]; erewrite (leaf_m_enc xC ex_kinds (fun _ => toy_rt) ex_ev CLx) by reflexivity; vm_compute; reflexivity|].
   split; [cbn [Core.leaf_u bridged]; unfold b_leaf_u; cbn [ex_kinds]; rewrite (run_leaf_enc xC CLx); vm_compute; reflexivity|].
   intros H. apply (encp_inj xC CLx) in H. discriminate H.
 Qed.
@@ -680,3 +897,21 @@ Qed.
 
 Lemma ex_base_suppresses : forall e, Core.suppressed ex_base (exn_map e) = true.
 Proof. intros e. reflexivity. Qed.
+
+(* ================================================================== F. serdes.load from C14's model *)
+Lemma sload_nontext T srt rt v : SLoadLaw T srt rt -> SShapeLaws T rt -> textual rt v = false -> load rt v = Ok v.
+Proof.
+  intros HL HS Ht. rewrite HL. unfold ind_load, S.load.
+  rewrite (SerdesLemmas.load_nontext srt true _ (ss_nontext T rt HS v Ht)). rewrite (ss_back T rt HS v Ht). reflexivity.
+Qed.
+Lemma load_laws_from_serdes T srt rt : SLoadLaw T srt rt -> SShapeLaws T rt -> LoadLaws rt.
+Proof. intros HL HS. split. intros u. apply (sload_nontext T srt rt _ HL HS). reflexivity. Qed.
+Lemma with_load_law T srt rt : SLoadLaw T srt (with_load rt (ind_load T srt)).
+Proof. intros v. reflexivity. Qed.
+Lemma with_load_textual rt f v : textual (with_load rt f) v = textual rt v.
+Proof. reflexivity. Qed.
+Lemma std_sshape_laws rt : SShapeLaws std_sshape rt.
+Proof.
+  split; intros v Ht; destruct v; try reflexivity; try (unfold textual in Ht; cbn [view] in Ht; discriminate Ht);
+    cbn [v_ser v_back std_sshape]; rewrite Nnat.Nat2N.id; apply std_dec_enc.
+Qed.
